@@ -24,7 +24,18 @@ def main():
     mod = importlib.import_module("props.%s" % pid.lower())
     ctx = common.Ctx(pid, tier, seed)
     if a.replay:
-        return mod.replay(ctx, json.load(open(a.replay)))
+        data = json.load(open(a.replay))
+        ctx.replay_path = a.replay
+        try:
+            import replay as _replay
+            rc = _replay.rerun(ctx, mod, data)
+        except Exception:
+            import traceback
+            print("re-execution of the replay failed:\n" + traceback.format_exc()[-1500:])
+            rc = None
+        if rc is not None:
+            return rc
+        return mod.replay(ctx, data)
 
     if hasattr(mod, "pre_build"):
         try:
